@@ -81,6 +81,10 @@ def handle (j : Json) : Option Json := do
             | some ach => go (convertAll o n (solOf gs ach (getRatMat sj "fv")) st1 gs) rest acc
       let r ← go [] steps []
       pure (Json.arr r.toArray)
+  | "statekey" =>
+      let cn ← getStr j "canonical"
+      let pos ← getBool j "positive"
+      pure (Json.str (stateGoalKey cn pos))
   | "objrow" =>
       let fix ← getBool j "fix"
       let cr ← getRat j "cr"
